@@ -250,6 +250,44 @@ Section Codec.
     intros [= H]. exact (limit_holds_l sc w ce cl s H).
   Qed.
 
+  (* ---- every handler behind the decompressor: the configured middlewares and the innermost handler ---- *)
+  Lemma views_are_handler_view_l sc w i v :
+    In (i, v) (server_views dec cdec sc w) -> exists ce cl s, server sc w = Handled ce cl s /\ v = (ce, cl, s).
+  Proof.
+    unfold server_views. destruct (server sc w) as [st| |ce cl s]; try (intros []).
+    intros H. exists ce, cl, s. split; [reflexivity|].
+    apply in_app_or in H. destruct H as [H|[H|[]]].
+    - apply in_map_iff in H. destruct H as [k [E _]]. now inversion E.
+    - now inversion H.
+  Qed.
+
+  Lemma limit_holds_every_handler_l sc w i ce cl s :
+    In (i, (ce, cl, s)) (server_views dec cdec sc w) -> (Z.of_nat (List.length (fst s)) <= eff_max sc)%Z.
+  Proof.
+    intros H. destruct (views_are_handler_view_l sc w i _ H) as [ce' [cl' [s' [E V]]]].
+    inversion V; subst. exact (limit_holds_l sc w ce' cl' s' E).
+  Qed.
+
+  (* a request that is rejected (or makes the server panic) reaches NO handler behind the decompressor *)
+  Lemma rejected_reaches_no_handler_l sc w :
+    (forall ce cl s, server sc w <> Handled ce cl s) -> server_views dec cdec sc w = [].
+  Proof.
+    intros H. unfold server_views. destruct (server sc w) as [st| |ce cl s]; try reflexivity.
+    exfalso. exact (H ce cl s eq_refl).
+  Qed.
+
+  (* when the handler runs, the middlewares run before it, in the configured order, each exactly once *)
+  Lemma views_order_l sc w ce cl s :
+    server sc w = Handled ce cl s ->
+    map fst (server_views dec cdec sc w) = map N.of_nat (seq 1 sc.(s_mw)) ++ [0%N] /\
+    Forall (fun p => snd p = (ce, cl, s)) (server_views dec cdec sc w).
+  Proof.
+    intros E. unfold server_views. rewrite E. split.
+    - rewrite map_app, map_map. reflexivity.
+    - apply Forall_app. split; [|repeat constructor].
+      apply Forall_forall. intros p Hp. apply in_map_iff in Hp. destruct Hp as [k [<- _]]. reflexivity.
+  Qed.
+
   (* what the handler reads is a prefix of what the selected decoder delivers (of the raw body
      when there is no decoder) *)
   Lemma handler_reads_prefix_l sc w ce cl s :
@@ -512,7 +550,7 @@ Section Codec.
   Lemma roundtrip_default_l cc mx r :
     type_known cc.(c_type) = true -> is_compressed cc.(c_type) = true -> client_validate cc = true ->
     r.(q_ce) = [] -> body_ok r = true ->
-    let sc := {| s_max := mx; s_algs := None; s_custom := [] |} in
+    let sc := {| s_max := mx; s_algs := None; s_custom := []; s_mw := 0 |} in
     exists c : codec, writer_codec cc.(c_type) = Some c /\
       (let b := body_bytes r.(q_body) in
        let wire := enc c (writer_level c (effective_level cc.(c_level))) b in
@@ -707,6 +745,25 @@ Section Codec.
     unfold run_history. rewrite in_map_iff. intros [r [H _]]. exact (limit_holds_e2e_full_l cc sc r ce cl s H).
   Qed.
 
+  (* the round trip for EVERY handler behind the decompressor: each configured middleware and the innermost
+     handler is given exactly the client's bytes *)
+  Lemma roundtrip_every_handler_l cc sc r c :
+    client_validate cc = true -> is_compressed cc.(c_type) = true -> writer_codec cc.(c_type) = Some c ->
+    hdr_compatible cc -> r.(q_ce) = [] -> r.(q_raw) = [] -> body_ok r = true ->
+    In cc.(c_type) (eff_algs sc) -> ~ In cc.(c_type) (map fst sc.(s_custom)) ->
+    let b := body_bytes r.(q_body) in
+    let wire := enc c (writer_level c (effective_level cc.(c_level))) b in
+    (Z.of_nat (List.length b) <= eff_max sc)%Z ->
+    (Z.of_nat (List.length wire) <= eff_max sc)%Z ->
+    exists w, fclient cc r = CSent w /\
+      map fst (server_views dec cdec sc w) = map N.of_nat (seq 1 sc.(s_mw)) ++ [0%N] /\
+      Forall (fun p => snd p = ([], (-1)%Z, (b, E_EOF))) (server_views dec cdec sc w).
+  Proof.
+    intros Hv Hc Hw Hh Hce Hr Hok Hin Hcu b wire Hb Hwire.
+    destruct (roundtrip_full_l cc sc r c Hv Hc Hw Hh Hce Hr Hok Hin Hcu Hb Hwire) as [w [C [_ S]]].
+    exists w. split; [exact C|]. exact (views_order_l sc w _ _ _ S).
+  Qed.
+
   Lemma roundtrip_e2e_full_l cc sc r c :
     client_validate cc = true -> is_compressed cc.(c_type) = true -> writer_codec cc.(c_type) = Some c ->
     hdr_compatible cc -> r.(q_ce) = [] -> r.(q_raw) = [] -> body_ok r = true ->
@@ -739,7 +796,7 @@ Section Codec.
   Lemma roundtrip_default_full_l cc mx r :
     type_known cc.(c_type) = true -> is_compressed cc.(c_type) = true -> client_validate cc = true ->
     hdr_compatible cc -> r.(q_ce) = [] -> r.(q_raw) = [] -> body_ok r = true ->
-    let sc := {| s_max := mx; s_algs := None; s_custom := [] |} in
+    let sc := {| s_max := mx; s_algs := None; s_custom := []; s_mw := 0 |} in
     exists c : codec, writer_codec cc.(c_type) = Some c /\
       (let b := body_bytes r.(q_body) in
        let wire := enc c (writer_level c (effective_level cc.(c_level))) b in
